@@ -398,7 +398,7 @@ M("i-wild-incl", SI, """            min, max = _prefix_bounds(prefix.epoch, pref
 M("i-ne-incl", SI, """                    RangeSpecifier(max=v, include_max=False),
                     RangeSpecifier(min=v, include_min=False),""", """                    RangeSpecifier(max=v, include_max=False),
                     RangeSpecifier(min=v, include_min=True),""", fire=["C01", "C04"])
-M("i-epoch-lost", SI, 'head = f"{epoch}!" if epoch else ""', 'head = ""', fire=["C04", "C17"])
+M("i-epoch-lost", SI, 'head = f"{epoch}!" if epoch else ""', 'head = ""', fire=["C04"], silent=["C17"])
 N("r-n-fstring-concat", R, '''return f"{'>=' if self.include_min else '>'}{self.min}"''', '''return ('>=' if self.include_min else '>') + str(self.min)''', props=["C06"])
 N("u-n-str-early", U, """        if self._simplified_form is not None:
             return self._simplified_form
